@@ -105,13 +105,12 @@ def md_equal(a, b):
 
 def _val_eq(x, y):
     if isinstance(x, dict) and isinstance(y, dict):
-        # a key mapped to None and an absent key are one observable state for
-        # a default-None mapping
-        kx = {k for k, v in x.items() if v is not None}
-        ky = {k for k, v in y.items() if v is not None}
-        if kx != ky:
+        # the key sets must agree exactly: a key silently inserted with a
+        # None value (e.g. by reading a default-None mapping with []) makes
+        # the table != an otherwise identical one
+        if set(x) != set(y):
             return False
-        return all(_val_eq(x[k], y[k]) for k in kx)
+        return all(_val_eq(x[k], y[k]) for k in x)
     if isinstance(x, (list, tuple)) and isinstance(y, (list, tuple)):
         return len(x) == len(y) and all(_val_eq(p, q) for p, q in zip(x, y))
     if isinstance(x, bool) or isinstance(y, bool):
